@@ -234,14 +234,16 @@ def _twin_threads(rng, nthreads, small):
     base = ops.gen_make(rng, 's0', small=True, allow_bad=False)
     while base['fn'] == 'make_sequence' or base['fn'].startswith('helpers.'):
         base = ops.gen_make(rng, 's0', small=True, allow_bad=False)
-    what = rng.weighted([('save', 55), ('make', 30), ('miter', 8), ('uri', 7)])
+    what = rng.weighted([('save', 50), ('make', 28), ('miter', 8), ('uri', 7), ('cli', 7)])
     kinds = [rng.choice(opts.KINDS) for _ in range(rng.randint(1, 3))]
     threads = [[] for _ in range(nthreads)]
     symspec = {'fn': base['fn'], 'content': base['content'], 'kw': base['kw']}
     for j, kind in enumerate(kinds):
         for t in range(nthreads):
             name = 't%do%d' % (t, j)
-            if what == 'make':
+            if what == 'cli':
+                spec = ops.gen_cli(rng, name, allow_bad=False)    # concurrent invocations of the command line entry point
+            elif what == 'make':
                 spec = dict(base, id='s%d_%d' % (t, j))
                 if 'mask' in base['kw'] and j % 2 == 0:
                     spec['kw'] = {k: v for k, v in base['kw'].items() if k != 'mask'}
